@@ -14,7 +14,10 @@ import (
 // ---- value codes (Alias/Owned.v: scalars are Z codes) ----
 // signed ints: the value; strings: 1000 + rank in a sorted alphabet (order preserving, needed by
 // the models of traitUnion/traitRemove/sort), "~" (what the scrambling caller writes) = -7;
-// everything else (unsigned, bool, enum, float, bytes, repeated scalars, maps): 1000000 + an
+// maps whose key is not a bool and lists of int / unsigned / float / string / bytes scalars (what the
+// scrambling caller rewrites IN PLACE: the map is emptied and given one entry, every list element is
+// overwritten): 2000000 + an interned id of the text rendering;
+// everything else (unsigned, bool, enum, float, bytes scalars, other lists and maps): 1000000 + an
 // interned id of the text rendering - the model never rewrites those.
 
 var alphabet = func() []string {
@@ -60,6 +63,56 @@ func (c *coder) misc(s string) int64 {
 	return v
 }
 
+func (c *coder) composite(s string) int64 { return c.misc(s) + 1000000 }
+
+func unsignedKind(k protoreflect.Kind) bool {
+	switch k {
+	case protoreflect.Uint32Kind, protoreflect.Uint64Kind, protoreflect.Fixed32Kind, protoreflect.Fixed64Kind:
+		return true
+	}
+	return false
+}
+
+// scramblable: the caller's rewrite of this map / scalar list field changes it whatever it held
+func scramblable(fd protoreflect.FieldDescriptor) bool {
+	switch {
+	case fd.IsMap():
+		return fd.MapKey().Kind() != protoreflect.BoolKind
+	case fd.IsList() && fd.Message() == nil:
+		k := fd.Kind()
+		return signedKind(k) || unsignedKind(k) || k == protoreflect.StringKind || k == protoreflect.BytesKind ||
+			k == protoreflect.FloatKind || k == protoreflect.DoubleKind
+	}
+	return false
+}
+
+// the value the scrambling caller writes for a scalar of this kind
+func scrScalar(fd protoreflect.FieldDescriptor) protoreflect.Value {
+	switch k := fd.Kind(); {
+	case k == protoreflect.Int32Kind || k == protoreflect.Sint32Kind || k == protoreflect.Sfixed32Kind:
+		return protoreflect.ValueOfInt32(scrInt)
+	case signedKind(k):
+		return protoreflect.ValueOfInt64(scrInt)
+	case k == protoreflect.Uint32Kind || k == protoreflect.Fixed32Kind:
+		return protoreflect.ValueOfUint32(4000000007)
+	case unsignedKind(k):
+		return protoreflect.ValueOfUint64(4000000007)
+	case k == protoreflect.StringKind:
+		return protoreflect.ValueOfString(scrStr)
+	case k == protoreflect.BytesKind:
+		return protoreflect.ValueOfBytes([]byte(scrStr))
+	case k == protoreflect.FloatKind:
+		return protoreflect.ValueOfFloat32(-7.5)
+	case k == protoreflect.DoubleKind:
+		return protoreflect.ValueOfFloat64(-7.5)
+	case k == protoreflect.BoolKind:
+		return protoreflect.ValueOfBool(true)
+	case k == protoreflect.EnumKind:
+		return protoreflect.ValueOfEnum(0)
+	}
+	return protoreflect.Value{}
+}
+
 func signedKind(k protoreflect.Kind) bool {
 	switch k {
 	case protoreflect.Int32Kind, protoreflect.Int64Kind, protoreflect.Sint32Kind, protoreflect.Sint64Kind,
@@ -98,6 +151,8 @@ func (e *enc) msg(m protoreflect.Message) int {
 		num := vcoq.Z(int64(fd.Number()))
 		v := m.Get(fd)
 		switch {
+		case scramblable(fd):
+			sc = append(sc, vcoq.Pair(num, vcoq.Z(e.c.composite(fmt.Sprintf("%s:%v", fd.FullName(), renderValue(fd, v))))))
 		case fd.IsMap() || (fd.IsList() && fd.Message() == nil):
 			sc = append(sc, vcoq.Pair(num, vcoq.Z(e.c.misc(fmt.Sprintf("%s:%v", fd.FullName(), renderValue(fd, v))))))
 		case fd.IsList():
@@ -154,7 +209,9 @@ func (c *coder) cells(m proto.Message) string {
 }
 
 // ---- the scrambling caller: every populated signed-int / string scalar of every message
-// reachable through singular and repeated message fields ----
+// reachable through singular and repeated message fields and map values; every map (not keyed by bool):
+// the messages it holds are rewritten, then the map itself is emptied and given one entry, IN PLACE;
+// every list of int / unsigned / float / string / bytes scalars: every element overwritten IN PLACE ----
 func scramble(m protoreflect.Message, seen map[protoreflect.Message]bool) {
 	if !m.IsValid() {
 		return
@@ -165,6 +222,36 @@ func scramble(m protoreflect.Message, seen map[protoreflect.Message]bool) {
 		}
 		switch {
 		case fd.IsMap():
+			if !scramblable(fd) {
+				break
+			}
+			mp := m.Get(fd).Map()
+			if fd.MapValue().Message() != nil {
+				mp.Range(func(_ protoreflect.MapKey, v protoreflect.Value) bool {
+					scramble(v.Message(), seen)
+					return true
+				})
+			}
+			var keys []protoreflect.MapKey
+			mp.Range(func(k protoreflect.MapKey, _ protoreflect.Value) bool {
+				keys = append(keys, k)
+				return true
+			})
+			for _, k := range keys {
+				mp.Clear(k)
+			}
+			if fd.MapValue().Message() != nil {
+				mp.Set(scrScalar(fd.MapKey()).MapKey(), mp.NewValue())
+			} else {
+				mp.Set(scrScalar(fd.MapKey()).MapKey(), scrScalar(fd.MapValue()))
+			}
+		case fd.IsList() && fd.Message() == nil:
+			if scramblable(fd) {
+				l := m.Get(fd).List()
+				for i := 0; i < l.Len(); i++ {
+					l.Set(i, scrScalar(fd))
+				}
+			}
 		case fd.IsList():
 			if fd.Message() != nil {
 				l := m.Get(fd).List()
